@@ -529,14 +529,16 @@ def record_and_validate(chk, exe, n_parsers, profile, calls_per_parser=(1, 1)):
 
 PLAN = {
     # pid: (models quick, models thorough, random profile, parsers quick, parsers thorough, calls per parser)
-    "C01": (["MC_Opt_C01_quick"], ["MC_Opt_C01_thorough"], dict(env=0.0, long=0.0), 3000, 40000, (1, 1)),
-    "C02": (["MC_Opt_C02_quick"], ["MC_Opt_C02_thorough"], dict(env=0.0, render=True), 3000, 40000, (1, 2)),
-    "C03": (["MC_Opt_C03"], ["MC_Opt_C03"], dict(env=0.9), 3000, 40000, (1, 1)),
+    # every option check also replays the history model MC_Opt_C14: what a property says about "parsing" holds for every
+    # call on a parser object, not only the first one
+    "C01": (["MC_Opt_C01_quick", "MC_Opt_C14_quick"], ["MC_Opt_C01_thorough", "MC_Opt_C14_quick"], dict(env=0.0, long=0.0), 3000, 40000, (1, 3)),
+    "C02": (["MC_Opt_C02_quick", "MC_Opt_C14_quick"], ["MC_Opt_C02_thorough", "MC_Opt_C14_quick"], dict(env=0.0, render=True), 3000, 40000, (1, 2)),
+    "C03": (["MC_Opt_C03", "MC_Opt_C14_quick"], ["MC_Opt_C03", "MC_Opt_C14_thorough"], dict(env=0.9), 3000, 40000, (1, 3)),
     # C04 also replays the re-parse histories: "the error is raised exactly when ..." must hold for every call, not only the first
     "C04": (["MC_Opt_C04_quick", "MC_Opt_C14_quick", "MC_Opt_C11b", "MC_Opt_Live"], ["MC_Opt_C04_thorough", "MC_Opt_C03", "MC_Opt_C14_quick", "MC_Opt_C11b", "MC_Opt_Live"],
             dict(env=0.3, long=0.03, batch=400), 3000, 30000, (1, 3)),
-    "C11": (["MC_Opt_C11a_quick", "MC_Opt_C11b"], ["MC_Opt_C11a_thorough", "MC_Opt_C11b"], dict(env=0.6, toggles=True), 3000, 40000, (1, 1)),
-    "C12": (["MC_Opt_C12_quick"], ["MC_Opt_C12_thorough"], dict(env=0.0, positional=True), 3000, 40000, (1, 1)),
+    "C11": (["MC_Opt_C11a_quick", "MC_Opt_C11b", "MC_Opt_C14_quick"], ["MC_Opt_C11a_thorough", "MC_Opt_C11b", "MC_Opt_C14_quick"], dict(env=0.6, toggles=True), 3000, 40000, (1, 3)),
+    "C12": (["MC_Opt_C12_quick", "MC_Opt_C14_quick"], ["MC_Opt_C12_thorough", "MC_Opt_C14_quick"], dict(env=0.0, positional=True), 3000, 40000, (1, 3)),
     "C14": (["MC_Opt_C14_quick"], ["MC_Opt_C14_thorough"], dict(env=0.3), 1500, 15000, (2, 6)),
 }
 
